@@ -64,6 +64,14 @@ func Replay(path string) int {
 		fmt.Println("not reproduced")
 		return 0
 	}
+	var hb struct {
+		BFS  string   `json:"bfs"`
+		Arg  string   `json:"arg"`
+		Hist []string `json:"hist"`
+	}
+	if json.Unmarshal(f.Replay, &hb) == nil && hb.BFS != "" {
+		return replayBFS(hb.BFS, hb.Arg, hb.Hist, f.Key)
+	}
 	if r := replayers[f.Property]; r != nil {
 		ok, trace := r(f.Replay)
 		for _, t := range trace {
@@ -119,5 +127,40 @@ func DebugDFS(path string) int {
 		}
 	}
 	fmt.Println("obs equal:", o1.Obs == o2.Obs)
+	return 0
+}
+
+// SelfTest executes fixed scenarios twice under the same choice sequence and demands
+// identical step logs, choice points and observations (the explorer owns the nondeterminism).
+func SelfTest() int {
+	zzvrt.TraceAll = true
+	defer func() { zzvrt.TraceAll = false }()
+	bad := 0
+	for _, tc := range []struct {
+		name, arg string
+		prefix    []int
+	}{{"c32", "pubB+takeA", nil}, {"c32", "pubB+takeA", []int{0, 0, 1, 0, 1}}, {"c32", "close+connC", []int{1, 0, 0, 2}}, {"c32", "pingA+pubB+ackA", []int{0, 1, 1}}} {
+		mk := dfsScenarios[tc.name]
+		if mk == nil {
+			continue
+		}
+		run := mk(tc.arg)
+		a, b := run(tc.prefix), run(tc.prefix)
+		same := a.Obs == b.Obs && len(a.StepLog) == len(b.StepLog) && len(a.Points) == len(b.Points)
+		for i := 0; same && i < len(a.StepLog); i++ {
+			same = a.StepLog[i] == b.StepLog[i]
+		}
+		for i := 0; same && i < len(a.Points); i++ {
+			same = a.Points[i] == b.Points[i]
+		}
+		fmt.Printf("selftest %s %s prefix=%v steps=%d points=%d deterministic=%v\n", tc.name, tc.arg, tc.prefix, len(a.StepLog), len(a.Points), same)
+		if !same || len(a.StepLog) == 0 {
+			bad++
+		}
+	}
+	if bad > 0 {
+		fmt.Println("SELFTEST FAILED")
+		return 1
+	}
 	return 0
 }
